@@ -9,7 +9,7 @@ DT_INT = DT_SIGNED + DT_UNSIGNED
 DT_ALL = DT_BOOL + DT_INT + DT_FLOAT
 
 STRATA = ["norows", "onerow", "onlyempty", "emptyfirst", "emptylast", "emptymid",
-          "consecutive", "trailingrun", "noempty", "onelong", "free", "big"]
+          "consecutive", "trailingrun", "noempty", "onelong", "free", "big", "manyempty"]
 
 
 def sizes(tier):
@@ -48,6 +48,10 @@ def length_vector(rng, tier="quick", stratum=None, maxrows=None, maxlen=None, mi
     elif stratum == "onelong":
         lens = [rng.choice([0, 1, 2]) for _ in range(rng.randint(2, maxrows))]
         lens[rng.randrange(len(lens))] = maxlen * (2 if tier == "quick" else 6)
+    elif stratum == "manyempty":
+        # a long run of consecutive empty rows (beyond 127 / 255: small counters overflow) followed by non-empty rows
+        run = rng.choice([126, 127, 128, 129, 200, 255, 256, 257, 300])
+        lens = [pos() for _ in range(rng.randint(0, 2))] + [0] * run + [pos() for _ in range(rng.randint(1, 3))] + ([0] * rng.choice([0, 130]) if rng.random() < 0.3 else [])
     elif stratum == "big":
         # more than 20 rows and more than 100 cells: the other branches of repr/str, several 64-cell blocks, long prefix sums
         lens = [rng.choice([0, 0, 1, 3, 5, 8, 9]) for _ in range(rng.randint(22, 40))]
@@ -125,3 +129,14 @@ def gen_slice(rng, n, steps=(None, 1, 1, 2, 3, -1, -1, -2, -3, 7, -7)):
 def slice_tag(s):
     st = 1 if s.step is None else s.step
     return "step+1" if st == 1 else ("step+k" if st > 0 else ("step-1" if st == -1 else "step-k"))
+
+
+NP_INTS = ["int8", "uint8", "int16", "uint16", "int32", "uint32", "int64", "uint64"]
+
+
+def np_int(rng, v):
+    """the integer v as a python int or as a numpy integer of a random dtype that can hold it (unsigned and narrow types included)"""
+    if rng.random() < 0.5:
+        return int(v)
+    fits = [d for d in NP_INTS if np.iinfo(d).min <= v <= np.iinfo(d).max]
+    return np.dtype(rng.choice(fits)).type(v) if fits else int(v)
